@@ -26,6 +26,18 @@ fn parse_decimal_exactly(s: &str) -> Option<Ratio<BigInt>> {
     if let Some(dot_pos) = base_str.find('.') {
         let integer_part = &base_str[..dot_pos];
         let fractional_part = &base_str[dot_pos + 1..];
+        // the sign belongs to the whole number, not just to the digits before the point
+        let (negative, integer_part) = match integer_part.strip_prefix('-') {
+            Some(rest) => (true, rest),
+            None => (
+                false,
+                integer_part.strip_prefix('+').unwrap_or(integer_part),
+            ),
+        };
+        // reject a second sign, e.g. "--1.5"
+        if integer_part.starts_with(['+', '-']) {
+            return None;
+        }
         // reject "." (but "1." and ".1" are both fine)
         if integer_part.is_empty() && fractional_part.is_empty() {
             return None;
@@ -49,6 +61,7 @@ fn parse_decimal_exactly(s: &str) -> Option<Ratio<BigInt>> {
         let decimal_places = fractional_part.len();
         let base_value =
             integer_digits * BigInt::from(10).pow(decimal_places as u32) + fractional_digits;
+        let base_value = if negative { -base_value } else { base_value };
 
         Some(apply_exp10(base_value, exponent - (decimal_places as i32)))
     } else {
@@ -133,6 +146,20 @@ mod tests {
             parse_rational_exactly("1.23e-2"),
             Some(Ratio::new(BigInt::from(123), BigInt::from(10000)))
         );
+
+        assert_eq!(
+            parse_rational_exactly("-1.5"),
+            Some(Ratio::new(BigInt::from(-3), BigInt::from(2)))
+        );
+        assert_eq!(
+            parse_rational_exactly("-0.5"),
+            Some(Ratio::new(BigInt::from(-1), BigInt::from(2)))
+        );
+        assert_eq!(
+            parse_rational_exactly("-.25e1"),
+            Some(Ratio::new(BigInt::from(-5), BigInt::from(2)))
+        );
+        assert_eq!(parse_rational_exactly("--1.5"), None);
 
         assert_eq!(parse_rational_exactly(""), None);
         assert_eq!(parse_rational_exactly("abc"), None);
